@@ -36,10 +36,10 @@ Qed.
 (* ---------------------------------------------------------------- dropped with the call (read / diff) *)
 (* a call that is not recorded (time filter, depth limit) contributes nothing to the stream: its read
    and diff events vanish with it *)
-Theorem read_events_dropped_with_call thr gd ms sh rd pm k d :
-  recs thr gd d (strip k) = [] -> xrecs (xplain thr gd ms sh rd pm) thr gd d k = [].
+Theorem read_events_dropped_with_call thr gd ms sh rd pm fv fd k d :
+  recs thr gd d (strip k) = [] -> xrecs (xplain thr gd ms sh rd pm fv fd) thr gd d k = [].
 Proof.
-  intro H. pose proof (is_nil_xrecs_list thr gd ms sh rd pm [k] d) as Q.
+  intro H. pose proof (is_nil_xrecs_list thr gd ms sh rd pm fv fd [k] d) as Q.
   cbn [flat_map map] in Q. rewrite !app_nil_r, H in Q. cbn [is_nil] in Q.
   destruct (xrecs _ thr gd d k); [reflexivity|discriminate].
 Qed.
@@ -118,7 +118,8 @@ Definition o_pf_only (mn : N) : oval :=
 (* (1) watch events of a call that the time filter drops are NOT dropped with it: f1 (10 ns, threshold
    50 ns) does not appear, the two cpu changes observed at its entry and exit do *)
 Definition drop_cfg : xcfg :=
-  {| xb := plain 50 1024 1024 PG; read_of := fun _ => 0; wp_cpu := true; wp_var := false; pmu_ok := false |}.
+  {| xb := plain 50 1024 1024 PG; read_of := fun _ => 0; wp_cpu := true; wp_var := false; pmu_ok := false;
+     fix_var := false; fix_drop := false |}.
 Definition drop_run : list xev :=
   [XEnter 0 100 (o_cpu_only 3); XEnter 256 110 (o_cpu_only 4); XLeave 120 (o_cpu_only 5);
    XEnter 512 130 (o_cpu_only 5); XLeave 190 (o_cpu_only 5); XLeave 200 (o_cpu_only 5)].
@@ -140,6 +141,66 @@ Proof.
   unfold invalidate. cbn [last_keep a_idx]. rewrite E. reflexivity.
 Qed.
 
+(* With proposed-fixes/C17-3.diff (compare with the exiting frame's own index) the same history records
+   neither f1 nor its events; the thread's first event (frame 0) stays *)
+Definition drop_cfg_fixed : xcfg :=
+  {| xb := plain 50 1024 1024 PG; read_of := fun _ => 0; wp_cpu := true; wp_var := false; pmu_ok := false;
+     fix_var := false; fix_drop := true |}.
+Lemma watch_dropped_with_call_fixed :
+  xout (snd (xexec drop_cfg_fixed drop_run xstart)) =
+  [IR {| r_time := 100; r_type := ENTRY; r_depth := 0; r_addr := 0 |}; wcpu 101 3;
+   IR {| r_time := 130; r_type := ENTRY; r_depth := 1; r_addr := 512 |};
+   IR {| r_time := 190; r_type := EXIT; r_depth := 1; r_addr := 512 |};
+   IR {| r_time := 200; r_type := EXIT; r_depth := 0; r_addr := 0 |}].
+Proof. vm_compute. reflexivity. Qed.
+
+(* in general: on a queue ordered by frame index (events are queued in hook order, deeper frames later)
+   the invalidation keeps exactly the events of the frames below the given index *)
+Fixpoint sorted_idx (p : list aev) : Prop :=
+  match p with
+  | a :: r => match r with b :: _ => a_idx a <= a_idx b | [] => True end /\ sorted_idx r
+  | [] => True
+  end.
+
+Lemma sorted_ge m a r : sorted_idx (a :: r) -> m <= a_idx a -> filter (fun x => a_idx x <? m) r = [].
+Proof.
+  revert a. induction r as [|b r IH]; intros a Hs Hm; [reflexivity|].
+  cbn [sorted_idx] in Hs. destruct Hs as [Hab Hs]. cbn [filter].
+  assert (E : (a_idx b <? m) = false) by (apply N.ltb_ge; lia). rewrite E.
+  apply (IH b); [exact Hs|lia].
+Qed.
+
+Lemma last_keep_sorted m : forall p i k, sorted_idx p ->
+  last_keep m p i k = match filter (fun x => a_idx x <? m) p with
+                      | [] => k
+                      | l => (i + length l)%nat
+                      end.
+Proof.
+  induction p as [|a r IH]; intros i k Hs; [reflexivity|].
+  cbn [last_keep filter]. destruct (a_idx a <? m) eqn:E.
+  - rewrite IH by (cbn [sorted_idx] in Hs; tauto).
+    destruct (filter (fun x => a_idx x <? m) r); cbn [length]; lia.
+  - apply N.ltb_ge in E. rewrite (sorted_ge m a r Hs E).
+    rewrite IH by (cbn [sorted_idx] in Hs; tauto). rewrite (sorted_ge m a r Hs E). reflexivity.
+Qed.
+
+Lemma firstn_filter_sorted m : forall p, sorted_idx p ->
+  firstn (length (filter (fun x => a_idx x <? m) p)) p = filter (fun x => a_idx x <? m) p.
+Proof.
+  induction p as [|a r IH]; intro Hs; [reflexivity|]. cbn [filter].
+  destruct (a_idx a <? m) eqn:E.
+  - cbn [length firstn]. f_equal. apply IH. cbn [sorted_idx] in Hs. tauto.
+  - apply N.ltb_ge in E. rewrite (sorted_ge m a r Hs E). reflexivity.
+Qed.
+
+Theorem invalidate_sorted m p : sorted_idx p -> invalidate m p = filter (fun x => a_idx x <? m) p.
+Proof.
+  intro Hs. unfold invalidate. rewrite last_keep_sorted by exact Hs.
+  pose proof (firstn_filter_sorted m p Hs) as F.
+  destruct (filter (fun x => a_idx x <? m) p) as [|b l] eqn:E; [reflexivity|].
+  cbn [Nat.add]. exact F.
+Qed.
+
 (* (2) a recorded call of zero duration (possible with the `trace` trigger) gets its read AND diff events
    twice: ENTRY and EXIT time coincide, so both passes emit every event of the frame *)
 Definition zero_cfg : xcfg :=
@@ -147,7 +208,7 @@ Definition zero_cfg : xcfg :=
                          t_trace_off := false; t_trace := true; t_caller := false |})]
                  false false 1024 0 1024 [] PG;
      read_of := fun a => if a =? 0 then TRIGGER_READ_PAGE_FAULT else 0;
-     wp_cpu := false; wp_var := false; pmu_ok := false |}.
+     wp_cpu := false; wp_var := false; pmu_ok := false; fix_var := false; fix_drop := false |}.
 Lemma zero_duration_read_twice_refuted :
   map (fun i => match i with IR r => (0, r_time r) | IE e => (e_id e, e_time e) end)
       (xout (snd (xexec zero_cfg [XEnter 0 100 (o_pf_only 5); XLeave 100 (o_pf_only 9)] xstart))) =
@@ -156,7 +217,8 @@ Lemma zero_duration_read_twice_refuted :
 Proof. vm_compute. reflexivity. Qed.
 
 (* non-vacuity of the read/diff theorem: a concrete run with a negative difference (wraps mod 2^64) *)
-Definition ex_cfg : xcfg := xplain 0 1024 1024 PG (fun a => if a =? 0 then TRIGGER_READ_PAGE_FAULT else 0) false.
+Definition ex_cfg : xcfg :=
+  xplain 0 1024 1024 PG (fun a => if a =? 0 then TRIGGER_READ_PAGE_FAULT else 0) false false false.
 Example read_diff_example :
   xout (snd (xexec ex_cfg [XEnter 0 100 (o_pf_only 9); XLeave 200 (o_pf_only 5)] xstart)) =
   [IR {| r_time := 100; r_type := ENTRY; r_depth := 0; r_addr := 0 |};
